@@ -349,6 +349,57 @@ pub fn run(tier: &str) -> Run {
         }
         frontier = next;
     }
+    // GROUP / FUNCTION unions: the same-name element on both sides with every combination of member lists drawn from a small
+    // pool of identifiers (one identifier may stand in several lists of the element)
+    {
+        let opts: [&[&str]; 3] = [&[], &["P"], &["Q", "P"]];
+        let mut ucases: Vec<Case8> = Vec::new();
+        for (kind, lists) in [("GROUP", vec!["SUB_GROUP", "FUNCTION_LIST", "REF_CHARACTERISTIC", "REF_MEASUREMENT"]), ("FUNCTION", vec!["SUB_FUNCTION", "IN_MEASUREMENT", "DEF_CHARACTERISTIC"]), ("FUNCTION", vec!["LOC_MEASUREMENT", "OUT_MEASUREMENT", "REF_CHARACTERISTIC"])] {
+            let n = lists.len() * 2;
+            for code in 0..3usize.pow(n as u32) {
+                let mut c = code;
+                let (mut ea, mut eb) = (e(kind, "U", "c1"), e(kind, "U", "c1"));
+                for (li, l) in lists.iter().enumerate() {
+                    for side in 0..2 {
+                        let o = opts[c % 3];
+                        c /= 3;
+                        if !o.is_empty() {
+                            if side == 0 {
+                                ea = ea.kid(kl(l, o));
+                            } else {
+                                eb = eb.kid(kl(l, o));
+                            }
+                        }
+                        let _ = li;
+                    }
+                }
+                ucases.push(Case8 { label: format!("{kind} union {lists:?} code {code}"), ns: format!("{}-union", kind.to_lowercase()), ta: file_text(&g, "A", &[ea]), tb: file_text(&g, "B", &[eb]) });
+            }
+        }
+        let ures = par_map(ucases.len(), &|i| merge_and_check(&g, &ucases[i].ta, &ucases[i].tb), &|i| {
+            println!("MACHINERY-ERROR: C08 union case hangs: {}", ucases[i].label);
+            std::process::exit(2);
+        });
+        for (i, r) in ures.into_iter().enumerate() {
+            run.evaluations += 1;
+            run.transitions += 3;
+            run.states.insert(fnv1a(format!("{}|{}", ucases[i].ta, ucases[i].tb).as_bytes()));
+            match r {
+                Err(e) if e.starts_with("machinery") => run.machinery(e),
+                Err(e) => run.violation(format!("C08/panic {}", vcore::explore::panic_key(&e)), format!("{}: {e}", ucases[i].label), json!({"a": ucases[i].ta, "b": ucases[i].tb})),
+                Ok(vs) => {
+                    let cv: Vec<&MV> = vs.iter().filter(|v| v.category == "conservation" || v.oracle == "B-member-lost").collect();
+                    if cv.is_empty() {
+                        run.outcome("member-list unions: conserved");
+                    }
+                    for v in cv {
+                        run.violation(format!("C08/{}/{}/{}", v.oracle, ucases[i].ns, v.detail), format!("{}: {}", ucases[i].label, v.what), json!({"a": ucases[i].ta, "b": ucases[i].tb}));
+                    }
+                }
+            }
+        }
+        run.require("member-list unions: conserved", 5000);
+    }
     // histories on one live object (the state keeps its in-memory indexes between the merges): every sequence of merges up
     // to the depth over the live menu, from an empty module and from the first menu module
     {
@@ -398,7 +449,7 @@ pub fn run(tier: &str) -> Run {
     run.require("typedefs: conserved", 500);
     run.require("compu_tabs: conserved", 500);
     run.require("unit: conserved", 50);
-    run.rule = "per namespace, all assignments of {absent | (kind, content c1|c2)} to the cells (name, side) for the name sets {X,Y} and {X, X.MERGE, X.MERGE2 / X.MERGE.MERGE}; the reference-site space of C09; merge empty / clone / into empty from 8 start modules; bfs over merge histories from a menu of 6 modules (states deduplicated on module content); histories on one live object: every sequence of 4 (thorough 5) merges over 5 modules that hold the same names in 12 namespaces with three contents, the .MERGE names and a referrer, from two starts, the relational oracle and the coherence of every name index checked after each merge. Oracle: relational (A kept, every B element represented under an observed renaming that is fresh w.r.t. A, identical elements shared, names unique, nothing invented, merged file reloads to an equal model).".into();
+    run.rule = "per namespace, all assignments of {absent | (kind, content c1|c2)} to the cells (name, side) for the name sets {X,Y} and {X, X.MERGE, X.MERGE2 / X.MERGE.MERGE}; the reference-site space of C09; merge empty / clone / into empty from 8 start modules; bfs over merge histories from a menu of 6 modules (states deduplicated on module content); same-name GROUP / FUNCTION on both sides with every combination of member lists over {absent, [P], [Q, P]}; histories on one live object: every sequence of 4 (thorough 5) merges over 5 modules that hold the same names in 12 namespaces with three contents, the .MERGE names and a referrer, from two starts, the relational oracle and the coherence of every name index checked after each merge. Oracle: relational (A kept, every B element represented under an observed renaming that is fresh w.r.t. A, identical elements shared, names unique, nothing invented, merged file reloads to an equal model).".into();
     run.assumptions = vec!["USER_RIGHTS, SYSTEM_CONSTANT, MEMORY_LAYOUT and the singletons are all-or-nothing by design: only the A side and duplicate freedom are asserted for them".into()];
     run
 }
